@@ -1681,6 +1681,9 @@ class VectorObject4D(VectorObject, Lorentz, Vector4D):
         temporal: TemporalObject | None = None,
         **kwargs: float,
     ) -> None:
+        if not _is_type_safe(kwargs):
+            raise TypeError("a coordinate must be of the type int or float")
+
         kwargs = _generic_kwargs(kwargs)
 
         if (
